@@ -27,6 +27,8 @@ def run(ctx):
     progs = list(corpus.all_programs())      # multi-module ones are recognised by their dump and skipped
     gen = cf_programs(ctx, ctx.n(120, 2000))
     progs += gen
+    dup = twin.duplabel_cases(ctx.rng("duplabel"), ctx.n(20, 200))
+    progs += dup
     items = [(PROP, name, files, entry, True, avoid) for name, files, entry in progs]
     cov = twin.collect_programs(PROP, out, items, sig_of)
     scov, chosen = twin.collect_strings(PROP, ctx, out)
@@ -38,7 +40,7 @@ def run(ctx):
     out.coverage["avoidance_rules"] = (
         ["programs whose emitted instruction arguments contain a character of a class listed in known_findings.json "
          "(%s) are not compared (their deviation is the listed finding)" % ", ".join(avoid)] if avoid else [])
-    out.coverage["workload_sizes"] = {"corpus": len(progs) - len(gen), "generated_cf": len(gen),
+    out.coverage["workload_sizes"] = {"corpus": len(progs) - len(gen) - len(dup), "repeated_label_programs": len(dup), "generated_cf": len(gen),
                                       "string_values": len(chosen)}
     pick = [(i, v, twin.has_raw_form(v)) for i, v in chosen[617:620]]
     out.samples = [{"kind": "string batch program (role print, 3 of ~200 literals)", "values": [v for _, v, _ in pick],
@@ -49,7 +51,9 @@ def run(ctx):
     out.rule = ("each single-module program is executed by `run` and by compile(raw-text) -> transpile -> execute (fresh "
                 "directories, H-DUMP on); stdout, exit class and every loaded function's instruction stream are "
                 "compared. Programs: examples + programs embedded in the test sources that load one module only "
-                "(<= 0.5 s CPU), seeded control-flow programs. Strings: %s values of length <= 4 over {\" \\ space TAB "
+                "(<= 0.5 s CPU), seeded control-flow programs, programs in which one function label is emitted several "
+                "times (same-named local classes in 2-4 functions / blocks, a class called __fnN; which declaration "
+                "runs: last, first, middle, all). Strings: %s values of length <= 4 over {\" \\ space TAB "
                 "LF CR n r t é} that a literal can denote, escaped + raw rendering, as print operand, map key and "
                 "assert-== operand; batches of 200 bisected to single literals (one evaluation = one (value, rendering, role) case decided, up to 200 share one pair of executions). Opcode table: all names of BIN_TO_REPR x "
                 "{no argument, quoted, bare, quoted with space}. Distinct non-trivial = distinct program with >= 5 "
